@@ -195,9 +195,13 @@ func runC44(c *Ctx) {
 	published := map[string][][]refRange{}
 	completionBad := ""
 	disconnected := false
+	var races []string
 	c.Bubble(func() {
 		s := simrt.New(c.T)
 		s.KeepTrace = c.Knobs["trace"] != ""
+		// The server's document table must only be touched by the (serial)
+		// request handler; the happens-before monitor watches it.
+		s.EnableHB()
 		wire := newLSPWire()
 		ctx, cancel := context.WithCancel(context.Background())
 		defer cancel()
@@ -318,10 +322,17 @@ func runC44(c *Ctx) {
 			pump()
 		})
 		v := s.Run()
+		if s.HB != nil && len(s.HB.Races) > 0 {
+			races = append(races, s.HB.Races...)
+		}
 		c.FinishSim(s, v)
 	})
 	if !c.Res.OK {
 		return
+	}
+	if len(races) > 0 {
+		sort.Strings(races)
+		c.Violation("data-race", "%d unsynchronised conflicting accesses to the server's document table (a concurrent map read and write kills the process); first: %s", len(races), races[0])
 	}
 	for _, e := range respErr {
 		c.Violation("protocol", "%s", e)
